@@ -123,6 +123,15 @@ static void h_op(void)
     return;
   }
   if (!strcmp(op, "data"))   { free(DX); DN = parse_bits_list(h_arg("xs"), &DX); h_out("ok n=%d", DN); return; }
+  if (!strcmp(op, "fitcount")) {   /* count-histogram fits: cs = c[0..n] */
+    const char *kind = h_arg("kind"); double *c; int m = parse_bits_list(h_arg("cs"), &c); double p1 = 0, p2 = 0; int st;
+    double *cc = malloc(m ? sizeof(double) * m : 1); if (m) memcpy(cc, c, sizeof(double) * m);     /* exact-size copy */
+    if (m < 1 || !kind) h_out("bad-op");
+    else if (!strcmp(kind, "lognormal")) { st = esl_lognormal_FitCountHistogram(cc, m - 1, &p1, &p2); out_fit(st, 2, p1, p2, 0); }
+    else if (!strcmp(kind, "gamma"))     { st = esl_gam_FitCountHistogram(cc, m - 1, h_argbits("a"), &p1, &p2); out_fit(st, 2, p1, p2, 0); }
+    else h_out("bad-op");
+    free(cc); free(c); return;
+  }
   if (!strcmp(op, "fit"))    { alarm(H_FIT_TIMEOUT); do_fit(); alarm(0); return; }   /* a fit that never returns dies with SIGALRM -> "fault signal:14" */
   if (!strcmp(op, "sample")) { do_sample(); return; }
   if (op[0] == 'h' && !H) { h_out("nohist"); return; }
